@@ -2,7 +2,7 @@
    loads and links it with the REAL mir.c of the current tree and reports where every data-like
    item ended up and what its section contains.
 
-   case   := iface[level] ':' item { ';' item }   iface: i | g | l  (interpreter, generator, lazy);
+   case   := iface[level] ':' item { ';' item }   iface: i | g | l | b (interpreter, generator, lazy, lazy basic-block);
                                                   level: generator optimisation level 0..3 (default 2)
    item   := 'D' nm ty (hex{,hex} | '-')          data, element bit patterns in hex
            | 'B' nm len                           bss
@@ -482,6 +482,7 @@ static void run_case (char *line) {
   MIR_link (ctx,
             iface == 'g'   ? MIR_set_gen_interface
             : iface == 'l' ? MIR_set_lazy_gen_interface
+            : iface == 'b' ? MIR_set_lazy_bb_gen_interface
                            : MIR_set_interp_interface,
             NULL);
   /* label machinery first: calling g prepares it, which is when lrefs get their values */
